@@ -33,6 +33,10 @@ type Result struct {
 }
 
 // Spec describes one property check: a generator of JSON-serialisable cases and a runner.
+// RuleAddenda holds, per property id, sentences appended to the rule text of the evidence (what later rounds added to
+// the generators); the property files fill it in an init function.
+var RuleAddenda = map[string]string{}
+
 type Spec[C any] struct {
 	ID    string
 	Level string // exploration | fault_enumeration
@@ -247,7 +251,11 @@ func saveFailure(id string, name string, raw []byte) string {
 // Execute runs the property: replay corpus first, then the exhaustive sub-space, then rapid.
 func Execute[C any](t *testing.T, spec Spec[C]) {
 	col := newCollector(spec.ID)
-	meta := specMeta{level: spec.Level, rule: spec.Rule, assumptions: spec.Assumptions}
+	rule := spec.Rule
+	if more := RuleAddenda[spec.ID]; more != "" {
+		rule += " " + more
+	}
+	meta := specMeta{level: spec.Level, rule: rule, assumptions: spec.Assumptions}
 	seed := rapidSeed()
 	defer col.write(meta, seed)
 
